@@ -147,7 +147,7 @@ impl PatchChain {
     pub fn read_file(&mut self, filename: &str) -> Result<Vec<u8>> {
         // Normalize filename and convert to uppercase for case-insensitive lookup
         // This matches MPQ hashing behavior which is always case-insensitive
-        let lookup_key = crate::path::normalize_mpq_path(filename).to_uppercase();
+        let lookup_key = crate::path::normalize_mpq_path(filename).to_ascii_uppercase();
 
         if let Some(&archive_idx) = self.file_map.get(&lookup_key) {
             // Check if this is a patch file by examining the file info
@@ -264,7 +264,7 @@ impl PatchChain {
 
     /// Check if a file exists in the chain
     pub fn contains_file(&self, filename: &str) -> bool {
-        let lookup_key = crate::path::normalize_mpq_path(filename).to_uppercase();
+        let lookup_key = crate::path::normalize_mpq_path(filename).to_ascii_uppercase();
         self.file_map.contains_key(&lookup_key)
     }
 
@@ -272,7 +272,7 @@ impl PatchChain {
     ///
     /// Returns the path to the archive containing the file, or None if not found.
     pub fn find_file_archive(&self, filename: &str) -> Option<&Path> {
-        let lookup_key = crate::path::normalize_mpq_path(filename).to_uppercase();
+        let lookup_key = crate::path::normalize_mpq_path(filename).to_ascii_uppercase();
         self.file_map
             .get(&lookup_key)
             .map(|&idx| self.archives[idx].path.as_path())
@@ -353,9 +353,11 @@ impl PatchChain {
             };
 
             // Add files to map (only if not already present from higher priority)
-            // MPQ hashing is case-insensitive, so normalize keys to uppercase
+            // MPQ hashing folds ASCII letters only, so normalize keys the same way
+            // (full Unicode upper-casing would conflate distinct names)
             for file in files {
-                let normalized_key = crate::path::normalize_mpq_path(&file.name).to_uppercase();
+                let normalized_key =
+                    crate::path::normalize_mpq_path(&file.name).to_ascii_uppercase();
                 self.file_map.entry(normalized_key).or_insert(idx);
             }
         }
